@@ -185,8 +185,8 @@ fn parse_kv_line(s: &str) -> HashMap<String, u64> {
 /// page numbers (WPageDup, WPageRange) violate C16 as well.
 fn relevant(prop: &str, check: &str, code: &str) -> bool {
     match prop {
-        "C19" => matches!(check, "decode" | "wf_pages_disjoint_ln" | "wf_pages_disjoint_bbn" | "wf_manifest" | "occupancy" | "frontier" | "freelist"),
-        _ => check != "frontier" && check != "freelist" && code != "WPageCover",
+        "C19" => matches!(check, "decode" | "wf_pages_disjoint_ln" | "wf_pages_disjoint_bbn" | "wf_manifest" | "occupancy" | "frontier" | "freelist" | "freelist-model"),
+        _ => check != "frontier" && check != "freelist" && check != "freelist-model" && code != "WPageCover",
     }
 }
 
@@ -302,7 +302,10 @@ fn check_point<H: HashAlgorithm>(
                     continue;
                 }
                 if t[2] != "ok" {
-                    fail(out, "freelist", format!("free-list check {} {} failed: {}", t[0], t[1], t[2..].join(" ")));
+                    // the set accounting, in-place writes and the page format are the property; the exact
+                    // replay of the allocator mirror (same pages in the same order) is a correspondence
+                    let check = if matches!(t[1], "transition" | "written" | "shape") { "freelist-model" } else { "freelist" };
+                    fail(out, check, format!("free-list check {} {} failed: {}", t[0], t[1], t[2..].join(" ")));
                 }
                 if t[1] == "transition" {
                     let kv = parse_kv_line(l);
@@ -681,6 +684,11 @@ fn check_point<H: HashAlgorithm>(
                 out.stats.bytes_reencoded_equal += g("bytes_compared");
                 out.stats.reencode_undefined_nonzero_bytes += g("undef_nonzero");
                 out.stats.reencode_noncanonical_separators += g("noncanon");
+                if g("noncanon") > 0 {
+                    // a separator stored with more bits than separator_len - prefix_len: the page decodes to
+                    // the same keys, but the builders' size accounting assumes canonical lengths (defect N12)
+                    fail(out, "reencode", format!("image check reencode failed: FAIL noncanon {} branch separator(s) stored with a non-canonical bit length", g("noncanon")));
+                }
                 for (k, name) in ["undef_nonzero_leaf", "undef_nonzero_branch", "undef_nonzero_overflow", "undef_nonzero_manifest"].iter().enumerate() {
                     out.stats.reencode_undefined_nonzero_by_kind[k] += g(name);
                 }
